@@ -7,11 +7,19 @@ def run_c20(check, thorough):
     for f in ("dterm", "dformula"):
         check.functions.add(f"harness.ch_c20:{f}")
     check.functions.update({"formulaic.utils.calculus:differentiate_term", "formulaic.formula:SimpleFormula.differentiate"})
-    ok = all(ch_c20.dterm(mk, n, a, b) for mk in range(32) for n in (1, 2) for a in range(4) for b in range(4)) and all(
-        ch_c20.dformula(a, b, c, w) for a in range(8) for b in range(8) for c in range(8) for w in range(3))
-    check.obligation("derivative.terms/native cross-validation", "ground" if ok else "refuted")
-    if not ok:
-        check.violation("dterm/dformula", "term-level differentiation law fails natively", {"kind": "ch_native", "module": "ch_c20", "function": "dterm", "call": {"args": [1, 1, 0, 0], "kwargs": {}}})
+    def _safe(fn, *a):
+        try:
+            return fn(*a) is True
+        except Exception:  # an exception escaping from the code under test is a failed law
+            return False
+
+    fails = [("dterm", [mk, n, a, b]) for mk in range(32) for n in (1, 2) for a in range(4) for b in range(4) if not _safe(ch_c20.dterm, mk, n, a, b)]
+    fails += [("dformula", [a, b, c, w, o]) for a in range(8) for b in range(8) for c in range(8) for w in range(3) for o in range(3) if not _safe(ch_c20.dformula, a, b, c, w, o)]
+    check.obligation("derivative.terms/native cross-validation", "ground" if not fails else "refuted")
+    for fname, args in fails[:1]:
+        extra = f" (source ordering {('degree', 'none', 'sort')[args[4]]!r})" if fname == "dformula" else ""
+        check.violation(f"{fname}" + (f"[ordering={('degree', 'none', 'sort')[args[4]]}]" if fname == "dformula" else ""), f"term-level differentiation law {fname} fails natively for {args}{extra}",
+                        {"kind": "ch_native", "module": "ch_c20", "function": fname, "call": {"args": args, "kwargs": {}}})
     runner.run_module(check, "ch_c20", {"dterm": [0, 1, 2, 3], "dformula": list(range(8))}, pct=600 if thorough else 100, ppt=15, group="derivative.terms",
                       keyer=lambda fname, call: f"{fname}")
 
